@@ -70,7 +70,14 @@ def build(cfg):
         if c == "SingleDiskCopy":
             return API.SingleDiskStorageSchedule(move_data=False)
         if c == "SingleDiskMove":
-            return API.SingleDiskStorageSchedule(move_data=True)
+            # p[0] (optional): another truthy flag value a caller may pass
+            flag = True
+            if p and p[0] == "int":
+                flag = 1
+            elif p and p[0] == "numpy":
+                import numpy
+                flag = numpy.bool_(True)
+            return API.SingleDiskStorageSchedule(move_data=flag)
         if c == "NoneSchedule":
             return API.NoneCheckpointSchedule()
         if c == "Multistage":
@@ -466,6 +473,7 @@ COSTS_ALL = [
     (1, 3, 0, 0),                                   # free disk
     (1, 1, 5, 0), (1, 1, 0, 5), (1, 1, 3, 4),       # asymmetric disk
     (1, 1, 10, 10), (1, 1, 20, 20),                 # dominant disk
+    (3, 1, 20, 20), (1, 3, 20, 20),                 # ... with uf != ub
     (0.5, 1, 1.5, 0.25), (1.5, 2, 3, 1),            # dyadic non-integers
     # extreme magnitudes (exact powers of two): the property is stated for all
     # positive costs, and tolerance-based comparisons only show out here
@@ -473,8 +481,8 @@ COSTS_ALL = [
     (1, 2.0 ** 31, 2, 2),                                   # ub dominates
     (2.0 ** 31, 1, 2, 2),                                   # uf dominates
 ]
-COSTS_QUICK = [COSTS_ALL[i] for i in (0, 1, 3, 4, 5, 6, 7, 10, 11, 14, 16,
-                                      18, 19)]
+COSTS_QUICK = [COSTS_ALL[i] for i in (0, 1, 3, 4, 5, 6, 7, 10, 11, 14, 16, 18,
+                                      20, 21)]
 
 
 def box(N_max, tier, classes=None, passes_max=None, costs=None):
@@ -497,6 +505,9 @@ def box(N_max, tier, classes=None, passes_max=None, costs=None):
                     out.append(Config(c, (), n, k))
         if want("SingleDiskMove"):
             out.append(Config("SingleDiskMove", (), n, 1))
+            if n <= 6:
+                out.append(Config("SingleDiskMove", ("int",), n, 1))
+                out.append(Config("SingleDiskMove", ("numpy",), n, 1))
         if want("NoneSchedule"):
             out.append(Config("NoneSchedule", (), n, 1))
         if want("Multistage"):
